@@ -4,6 +4,7 @@ namespace Px.Idle
 def parseEv1 (tok : String) : Option Ev :=
   match tok.splitOn "," with
   | ["r", t, k] => do some (.clientRead (← t.toInt?) (← k.toNat?))
+  | ["e", t] => do some (.clientReadEnd (← t.toInt?))
   | ["w", t, f] => do some (.clientWrite (← t.toInt?) (f == "1"))
   | ["u", t, k] => do some (.upstream (← t.toInt?) (← k.toNat?))
   | ["i", t] => do some (.loopIter (← t.toInt?))
@@ -19,13 +20,15 @@ def parseEv (tok : String) : Option (Bool × Ev) :=
 def statusStr : Status → String
   | .open => "o"
   | .reaped t => s!"R{t}"
+  | .torn t => s!"T{t}"
 
 /-- observation after one event handled at the event's own time -/
 def obs (cfg : Cfg) (s : St) (e : Ev) : String :=
   match s.status with
   | .open =>
-    s!"{s.lastActivity}:{s.numBuffer}:{s.reaperRuns}:{if isInactive cfg s e.time then 1 else 0}:o"
+    s!"{s.lastActivity}:{s.numBuffer}:{s.reaperRuns}:{if isInactive cfg s e.time then 1 else 0}:{if s.readsTorn then "l" else "o"}"
   | .reaped t => s!"R{t}"
+  | .torn t => s!"T{t}"
 
 def traceOut (cfg : Cfg) : St → List (Bool × Ev) → List String
   | _, [] => []
